@@ -19,6 +19,7 @@ from .types import (
     SV,
     TBool,
     TInt,
+    TList,
     TMap,
     TOpt,
     TRec,
@@ -384,7 +385,7 @@ class StmtMixin:
             raise Unsupported(f"loop #{ordinal} at L{s.lineno} of {self.frame_fn().qualname} has no invariant")
         ghosts = {}
         if kind == "for":
-            if isinstance(iterable.ty, TSeq) or iterable.ty == TStr:
+            if isinstance(iterable.ty, (TSeq, TList)) or iterable.ty == TStr:
                 ghosts["seq"] = iterable
                 ghosts["idx"] = lift(0)
             elif isinstance(iterable.ty, TSet):
@@ -407,15 +408,19 @@ class StmtMixin:
                 r = inv(c)
             except LocalGone as e:
                 raise Unsupported(f"invariant of loop #{ordinal} names local '{e}' which does not exist") from None
-            return lift(r, TBool)
+            # the enclosing function's frame condition is an implicit part of every loop invariant
+            return lift(r, TBool) & self.frame_formula()
 
         self.oblige(f"inv{ordinal}.init", inv_formula(), s)
         # havoc everything the body may assign
-        assigned = _assigned_names(s.body, s.target if kind == "for" else None)
-        for n in assigned:
+        assigned, mutated = _assigned_names(s.body, s.target if kind == "for" else None)
+        for n in assigned + [m for m in mutated if m not in assigned]:
             v, ok = self.lookup_name(n)
-            if ok:
-                self.rebind_existing(n, self.havoc_value(v, n))
+            if not ok:
+                continue
+            if n not in assigned and _is_reference(v):
+                continue  # a method call on a heap object does not rebind the name (its fields live in the heap)
+            self.rebind_existing(n, self.havoc_value(v, n))
         pre_heap = dict(self.st.heap)
         written = self.body_written_fields(s)
         for k in written:
@@ -523,12 +528,21 @@ def _exc_name(n):
 MUTATORS = {"append", "appendleft", "add", "update", "extend", "pop", "popleft", "remove", "discard", "clear", "difference_update", "intersection_update", "sort", "setdefault", "insert"}
 
 
+def _is_reference(v):
+    if isinstance(v, SV):
+        t = v.ty.elem if isinstance(v.ty, TOpt) else v.ty
+        return isinstance(t, TRef)
+    return False
+
+
 def _assigned_names(body, target=None):
     out = []
+    mut = []
 
-    def add(n):
-        if n not in out:
-            out.append(n)
+    def add(n, m=False):
+        lst = mut if m else out
+        if n not in lst:
+            lst.append(n)
 
     def root(e):
         while isinstance(e, (ast.Attribute, ast.Subscript)):
@@ -545,11 +559,11 @@ def _assigned_names(body, target=None):
             elif isinstance(n, (ast.Attribute, ast.Subscript)) and isinstance(n.ctx, (ast.Store, ast.Del)):
                 r = root(n)
                 if r:
-                    add(r)
+                    add(r, True)
             elif isinstance(n, ast.Call) and isinstance(n.func, ast.Attribute) and n.func.attr in MUTATORS:
                 r = root(n.func.value)
                 if r:
-                    add(r)
+                    add(r, True)
             elif isinstance(n, ast.NamedExpr):
                 add(n.target.id)
-    return out
+    return out, mut
